@@ -54,13 +54,89 @@ SWAPS = [("probability_of_detection", "success_ratio"), ("success_ratio", "proba
 HSS_NAMES = ("heidke_skill_score", "cohens_kappa")
 
 
-def manager(tp, fp, fn, tn, dims=("t",)):
-    """the real BasicContingencyManager from a counts dict of DataArrays (1-D over the tables)"""
+def model_ok(ctx):
+    b = getattr(ctx, "build", None) or {}
+    return bool(b.get("driver_ok")) and not ({"C08", "C09"} & set(b.get("excluded_models") or []))
+
+
+KEY_ORDERS = [("tp_count", "tn_count", "fp_count", "fn_count", "total_count"),      # the order _get_counts uses
+              ("tp_count", "fp_count", "fn_count", "tn_count", "total_count"),
+              ("total_count", "fn_count", "tn_count", "fp_count", "tp_count"),
+              ("fn_count", "total_count", "tp_count", "tn_count", "fp_count")]
+
+
+def manager(tp, fp, fn, tn, dims=("t",), order=0):
+    """the real BasicContingencyManager from a counts dict of DataArrays (1-D over the tables); the dict may list its keys in any order"""
     from scores.categorical import BasicContingencyManager
     c = {"tp_count": xr.DataArray(np.asarray(tp, dtype=float), dims=dims), "tn_count": xr.DataArray(np.asarray(tn, dtype=float), dims=dims),
          "fp_count": xr.DataArray(np.asarray(fp, dtype=float), dims=dims), "fn_count": xr.DataArray(np.asarray(fn, dtype=float), dims=dims)}
     c["total_count"] = c["tp_count"] + c["tn_count"] + c["fp_count"] + c["fn_count"]
-    return BasicContingencyManager(c)
+    return BasicContingencyManager({k: c[k] for k in KEY_ORDERS[order % len(KEY_ORDERS)]})
+
+
+# ---- independent oracle: the documented formulas on exact fractions, zero cells giving the IEEE value ----
+def ratio(a, b):
+    if isinstance(a, float) or isinstance(b, float):          # NaN operand
+        return float("nan")
+    if b == 0:
+        return float("nan") if a == 0 else (float("inf") if a > 0 else float("-inf"))
+    return Fraction(a) / Fraction(b)
+
+
+def fl(v):
+    return v if isinstance(v, float) else float(v)
+
+
+def oracle(name, tp, fp, fn, tn):
+    tp, fp, fn, tn = Fraction(tp), Fraction(fp), Fraction(fn), Fraction(tn)
+    tot = tp + fp + fn + tn
+    pod, pofd = ratio(tp, tp + fn), ratio(fp, tn + fp)
+    if name in ("accuracy", "fraction_correct"):
+        return ratio(tp + tn, tot)
+    if name == "base_rate":
+        return ratio(tp + fn, tot)
+    if name == "forecast_rate":
+        return ratio(tp + fp, tot)
+    if name in ("frequency_bias", "bias_score"):
+        return ratio(tp + fp, tp + fn)
+    if name in ("probability_of_detection", "hit_rate", "true_positive_rate", "sensitivity", "recall"):
+        return pod
+    if name == "false_alarm_ratio":
+        return ratio(fp, tp + fp)
+    if name in ("false_alarm_rate", "probability_of_false_detection"):
+        return pofd
+    if name in ("success_ratio", "precision", "positive_predictive_value"):
+        return ratio(tp, tp + fp)
+    if name in ("threat_score", "critical_success_index"):
+        return ratio(tp, tp + fp + fn)
+    if name in ("peirce_skill_score", "true_skill_statistic", "hanssen_and_kuipers_discriminant"):
+        return float("nan") if isinstance(pod, float) or isinstance(pofd, float) else pod - pofd
+    if name in ("specificity", "true_negative_rate"):
+        return ratio(tn, tn + fp)
+    if name == "negative_predictive_value":
+        return ratio(tn, tn + fn)
+    if name == "f1_score":
+        return ratio(2 * tp, 2 * tp + fp + fn)
+    if name in ("equitable_threat_score", "gilberts_skill_score"):
+        if tot == 0:
+            return float("nan")
+        hr = (tp + fn) * (tp + fp) / tot
+        return ratio(tp - hr, tp + fn + fp - hr)
+    if name in ("heidke_skill_score", "cohens_kappa"):
+        if tot == 0:
+            return float("nan")
+        e = ((tp + fn) * (tp + fp) + (tn + fn) * (tn + fp)) / tot
+        return ratio(tp + tn - e, tot - e)
+    if name == "odds_ratio":
+        return ratio(tp * tn, fp * fn)
+    if name in ("odds_ratio_skill_score", "yules_q"):
+        return ratio(tp * tn - fn * fp, tp * tn + fn * fp)
+    if name == "symmetric_extremal_dependence_index":
+        with np.errstate(all="ignore"):
+            a, b = np.float64(fl(pofd)), np.float64(fl(pod))
+            la, lb, lc, ld = np.log(a), np.log(b), np.log(1 - b), np.log(1 - a)
+            return float((la - lb + lc - ld) / (la + lb + lc + ld))
+    raise KeyError(name)
 
 
 def call_all(mgr):
@@ -104,38 +180,36 @@ def is_single_diagonal_cell(t):
     return fp == 0 and fn == 0 and (tp == 0) != (tn == 0)
 
 
-def check_tables(ctx, tables, impl, label, sedi_budget=None):
+def check_tables(ctx, tables, impl, label, sedi_budget=None, use_model=True):
     """tables: list of (tp,fp,fn,tn) ints; impl: {method: flat list of floats aligned with tables}"""
-    res = ctx.model("c09_metrics", enc_list([enc_list([enc_num(x) for x in t]) for t in tables]))
+    res = ctx.model("c09_metrics", enc_list([enc_list([enc_num(x) for x in t]) for t in tables])) if use_model else [None] * len(tables)
     for i, (t, r) in enumerate(zip(tables, res)):
-        gen = {core.dec_str(p[0]): core.dec_num(p[1]) for p in r[0]}
-        spec = {core.dec_str(p[0]): core.dec_num(p[1]) for p in r[1]}
-        if set(gen) != set(METHODS):
-            ctx.tie_fail("method table of the model differs from the harness", {"missing": sorted(set(METHODS) ^ set(gen))}, None, None)
-            return
-        if sedi_budget is None or i < sedi_budget:
-            gen["symmetric_extremal_dependence_index"], spec["symmetric_extremal_dependence_index"] = sedi_model(ctx, t)
-        else:
-            gen.pop("symmetric_extremal_dependence_index")
+        gen = spec = None
+        if use_model:
+            gen = {core.dec_str(p[0]): core.dec_num(p[1]) for p in r[0]}
+            spec = {core.dec_str(p[0]): core.dec_num(p[1]) for p in r[1]}
+            if set(gen) != set(METHODS):
+                ctx.tie_fail("method table of the model differs from the harness", {"missing": sorted(set(METHODS) ^ set(gen))}, None, None)
+                return
+            if sedi_budget is None or i < sedi_budget:
+                gen["symmetric_extremal_dependence_index"], spec["symmetric_extremal_dependence_index"] = sedi_model(ctx, t)
+            else:
+                gen.pop("symmetric_extremal_dependence_index")
         for m in METHODS:
-            if m not in gen:
-                continue
             x = impl[m][i]
+            exp = oracle(m, *t)
             case = {"table": {"tp": t[0], "fp": t[1], "fn": t[2], "tn": t[3]}, "method": m, "via": label}
             ctx.case((t, m))
             if isinstance(x, str):
-                ctx.violation("metric method raises on a table (zero cells must give the IEEE value, never an exception)", case, spec.get(m), x)
+                ctx.violation("metric method raises on a table (zero cells must give the IEEE value, never an exception)", case, exp, x)
                 continue
-            if m in HSS_NAMES and is_single_diagonal_cell(t) and not core.close(x, spec[m]) and math.isfinite(x):
-                # 1/total is rounded before the multiplication: (1/49)*49*49 != 49 in binary64
-                ctx.violation("heidke_skill_score of a table with a single non-empty diagonal cell is finite instead of NaN (0/0)",
-                              case, spec[m], x, finding_key="hss-reciprocal-rounding")
-                ctx.count("known:hss-reciprocal-rounding")
-                continue
-            if not core.close(x, spec[m]):
-                ctx.violation(f"{m} differs from its documented formula", case, spec[m], x)
-            if not core.close(x, gen[m]):
-                ctx.tie_fail(f"gen_metric_{m} vs BasicContingencyManager.{m}", case, x, gen[m])
+            if not core.close(x, exp):
+                ctx.violation(f"{m} differs from its documented formula", case, exp, x)
+            if use_model and m in gen:
+                if not core.close(x, gen[m]):
+                    ctx.tie_fail(f"gen_metric_{m} vs BasicContingencyManager.{m}", case, x, gen[m])
+                if not core.close(fl(exp), spec[m]):
+                    ctx.tie_fail(f"proved specification of {m} vs the harness oracle", case, exp, spec[m])
         zero = sum(1 for v in t if v == 0)
         ctx.count(f"{label}:zero_cells={zero}")
 
@@ -148,24 +222,31 @@ def flat(v, dims=None):
     return [float(z) for z in np.asarray(v.values, dtype=float).ravel()]
 
 
-def run_tables(ctx, tables, label, sedi_budget=None):
-    mgr = manager(*[[t[k] for t in tables] for k in range(4)])
-    impl = {}
-    for m, v in call_all(mgr).items():
-        f = flat(v)
-        impl[m] = f if f is not None else [v] * len(tables)
-    check_tables(ctx, tables, impl, label, sedi_budget)
+def run_tables(ctx, tables, label, sedi_budget=None, use_model=True):
+    order = ctx.rng.randrange(len(KEY_ORDERS))
+    ctx.count(f"counts_dict_key_order={order}")
+    mgr = manager(*[[t[k] for t in tables] for k in range(4)], order=order)
+    # a second manager is alive and queried in between: the methods must not share state across instances
+    sw = manager(*[[t[k] for t in tables] for k in (0, 2, 1, 3)], order=ctx.rng.randrange(len(KEY_ORDERS)))
+    impl, simpl = {}, {}
+    for m in METHODS:
+        with np.errstate(all="ignore"):
+            for mg, out in ((mgr, impl), (sw, simpl)):
+                st, v = core.call_impl(getattr(mg, m))
+                f = None if st == "err" else flat(v)
+                out[m] = f if f is not None else [v] * len(tables)
+    check_tables(ctx, tables, impl, label, sedi_budget, use_model)
     # aliases return identical values (bitwise, NaN == NaN)
     for a, b in ALIASES:
         for i, t in enumerate(tables):
             if not (isinstance(impl[a][i], str) or same_float(impl[a][i], impl[b][i])):
                 ctx.violation(f"alias {a} differs from {b}", {"table": t}, impl[b][i], impl[a][i])
     # swap symmetries on the implementation
-    sw = manager(*[[t[k] for t in tables] for k in (0, 2, 1, 3)])
-    simpl = {m: flat(v) for m, v in call_all(sw).items()}
     for a, b in SWAPS:
         for i, t in enumerate(tables):
             x, y = simpl[a][i], impl[b][i]
+            if isinstance(x, str) or isinstance(y, str):
+                continue
             ok = (math.isnan(x) and math.isnan(y)) or (math.isinf(x) and x == y) or \
                 (math.isfinite(x) and math.isfinite(y) and abs(x - y) <= 1e-9 * max(1.0, abs(y)))
             if not ok and a in HSS_NAMES and is_single_diagonal_cell(t):
@@ -194,7 +275,7 @@ def rand_table(rng, hi):
     return tuple(t)
 
 
-def multi_dim(ctx):
+def multi_dim(ctx, use_model=True):
     """count arrays of 1-3 dims whose four members are stored in different dim / coordinate order"""
     from scores.categorical import BasicContingencyManager
     rng = ctx.rng
@@ -205,7 +286,7 @@ def multi_dim(ctx):
         arrs[k] = gens.rand_da(rng, sizes, values=[0, 0, 0, 1, 2, 3, 5, 8, 13, 40])
     c = {k + "_count": v for k, v in arrs.items()}
     c["total_count"] = c["tp_count"] + c["tn_count"] + c["fp_count"] + c["fn_count"]
-    mgr = BasicContingencyManager(c)
+    mgr = BasicContingencyManager({k: c[k] for k in KEY_ORDERS[rng.randrange(len(KEY_ORDERS))]})
     canon = {k: v.transpose(*dims).sortby(dims) for k, v in arrs.items()}
     tables = [tuple(int(canon[k].values.ravel()[i]) for k in ("tp", "fp", "fn", "tn")) for i in range(int(np.prod([sizes[d] for d in dims])))]
     impl = {}
@@ -214,8 +295,17 @@ def multi_dim(ctx):
             impl[m] = [v] * len(tables)
         else:
             impl[m] = flat(v.sortby(dims), dims)
-    check_tables(ctx, tables, impl, "multidim", sedi_budget=4)
+    check_tables(ctx, tables, impl, "multidim", sedi_budget=4, use_model=use_model)
     ctx.count(f"multidim:ndim={len(dims)}")
+
+
+def expected_keep(all_dims, rd, pd):
+    """dimensions a valid reduce_dims / preserve_dims request keeps (the documented rule, restated independently)"""
+    if pd is not None:
+        return set(all_dims) if pd == "all" else ({pd} if isinstance(pd, str) else set(pd))
+    if rd is None or rd == "all":
+        return set()
+    return set(all_dims) - ({rd} if isinstance(rd, str) else set(rd))
 
 
 def rand_binary_case(ctx):
@@ -223,18 +313,49 @@ def rand_binary_case(ctx):
     sizes = gens.rand_sizes(rng)
     vals = [0.0, 1.0]
     bad = rng.random() < 0.08
-    fcst = gens.rand_da(rng, sizes, values=vals + ([2.0, 0.5] if bad and rng.random() < 0.5 else []), nan_p=0.15 if rng.random() < 0.5 else 0.0)
+    fdims = gens.sub_dims(rng, sizes, p_drop=0.2, keep_at_least=1)      # obs may carry a dimension the forecast lacks, and vice versa
+    fcst = gens.rand_da(rng, sizes, dims=fdims, values=vals + ([2.0, 0.5] if bad and rng.random() < 0.5 else []), nan_p=0.15 if rng.random() < 0.5 else 0.0)
     odims = gens.sub_dims(rng, sizes, p_drop=0.2)
     obs = gens.rand_da(rng, sizes, dims=odims, values=vals + ([-1.0, 0.25] if bad else []), nan_p=0.15 if rng.random() < 0.5 else 0.0)
     w = None
     if rng.random() < 0.5:
         wd = gens.sub_dims(rng, sizes, p_drop=0.4)
         w = gens.rand_da(rng, sizes, dims=wd, lo=0, hi=3, nan_p=0.1 if rng.random() < 0.3 else 0.0)
-    rd, pd = gens.rand_dimspec(rng, list(sizes), allow_bad=True)
+    rd, pd = gens.rand_dimspec(rng, sorted(set(fcst.dims) | set(obs.dims)), allow_bad=True)
     return fcst, obs, w, rd, pd, (rng.random() < 0.85)
 
 
-def standalone(ctx, i):
+def standalone_oracle(fcst, obs, w, keep):
+    """independent oracle of the standalone POD / POFD: weighted counts of the valid pairs by their 0/1 pattern, IEEE quotient"""
+    arrs = xr.broadcast(*([fcst, obs] + ([w] if w is not None else [])))
+    f = arrs[0]
+    fv = np.asarray(f.values, float)
+    ov = np.asarray(arrs[1].transpose(*f.dims).values, float)
+    wv = np.asarray(arrs[2].transpose(*f.dims).values, float) if w is not None else np.ones_like(fv)
+    valid = ~np.isnan(fv) & ~np.isnan(ov) & ~np.isnan(wv)
+    axes = tuple(k for k, d in enumerate(f.dims) if d not in keep)
+    kept = [d for d in f.dims if d in keep]
+
+    def wsum(mask):
+        return np.where(valid & mask, wv, 0.0).sum(axis=axes)
+    with np.errstate(all="ignore"):
+        h, m = wsum((ov == 1) & (fv == 1)), wsum((ov == 1) & (fv == 0))
+        fa, cn = wsum((ov == 0) & (fv == 1)), wsum((ov == 0) & (fv == 0))
+        pod, pofd = h / (h + m), fa / (fa + cn)
+    mk = lambda v: xr.DataArray(v, dims=kept, coords={d: f[d] for d in kept})     # noqa: E731
+    return mk(pod), mk(pofd)
+
+
+def same_da(a, b):
+    """same dims (as sets), same labels, same values up to 1e-12"""
+    if set(a.dims) != set(b.dims):
+        return False
+    if a.dims:
+        b = b.sel({d: a[d] for d in a.dims}).transpose(*a.dims)
+    return bool(np.allclose(np.asarray(a.values, float), np.asarray(b.values, float), rtol=1e-12, atol=0, equal_nan=True))
+
+
+def standalone(ctx, i, use_model=True):
     import scores.categorical as C
     fcst, obs, w, rd, pd, ca = rand_binary_case(ctx)
     kw = {"check_args": ca}
@@ -247,17 +368,40 @@ def standalone(ctx, i):
     with np.errstate(all="ignore"):
         ipod = core.call_impl(C.probability_of_detection, fcst, obs, **kw)
         ipofd = core.call_impl(C.probability_of_false_detection, fcst, obs, **kw)
-    m = ctx.model("c09_binary_pod_pofd", enc_list([enc_arr(fcst), enc_arr(obs), enc_dimspec(rd), enc_dimspec(pd), enc_opt(w, enc_arr), enc_bool(ca)]))
+    m = ctx.model("c09_binary_pod_pofd", enc_list([enc_arr(fcst), enc_arr(obs), enc_dimspec(rd), enc_dimspec(pd), enc_opt(w, enc_arr), enc_bool(ca)])) \
+        if use_model else None
     desc = {"fn": "probability_of_detection/false_detection", "fcst": gens.da_repr(fcst), "obs": gens.da_repr(obs), "reduce_dims": rd,
             "preserve_dims": pd, "weights": gens.da_repr(w), "check_args": ca}
     ctx.case(desc, ipod[0] == "ok")
     ctx.count("standalone:" + ("ok" if ipod[0] == "ok" else ipod[1]))
     if i < 1:
         ctx.sample(desc)
-    for name, impl, mt in (("probability_of_detection", ipod, m[0]), ("probability_of_false_detection", ipofd, m[1])):
-        ok, why = core.compare_result(impl, mt)
+    for k, (name, impl) in enumerate((("probability_of_detection", ipod), ("probability_of_false_detection", ipofd))):
+        if not use_model:
+            break
+        ok, why = core.compare_result(impl, m[k])
         if not ok:
-            ctx.tie_fail(f"standalone {name} vs model: {why}", desc, str(impl[1])[:300], str(mt)[:300])
+            ctx.tie_fail(f"standalone {name} vs model: {why}", desc, str(impl[1])[:300], str(m[k])[:300])
+    # POD and POFD resolve the same request to the same dimensions, and both equal the weighted-count oracle
+    if (ipod[0] == "ok") != (ipofd[0] == "ok"):
+        ctx.violation("probability_of_detection and probability_of_false_detection disagree on whether the request is valid", desc,
+                      str(ipofd[1])[:100], str(ipod[1])[:100])
+    if ipod[0] == "ok" and ipofd[0] == "ok":
+        if set(ipod[1].dims) != set(ipofd[1].dims):
+            ctx.violation("probability_of_detection and probability_of_false_detection keep different dimensions for the same request", desc,
+                          list(ipofd[1].dims), list(ipod[1].dims))
+        binary_in = bool(np.isin(fcst.values[~np.isnan(fcst.values)], [0, 1]).all() and np.isin(obs.values[~np.isnan(obs.values)], [0, 1]).all())
+        wd_ok = w is None or set(w.dims) <= (set(fcst.dims) | set(obs.dims))
+        if binary_in and wd_ok:
+            all_dims = set(fcst.dims) | set(obs.dims)
+            exp_keep = expected_keep(all_dims, rd, pd)
+            epod, epofd = standalone_oracle(fcst, obs, w, exp_keep)
+            for name, got, exp in (("probability_of_detection", ipod[1], epod), ("probability_of_false_detection", ipofd[1], epofd)):
+                if not same_da(exp, got):
+                    ctx.violation(f"standalone {name} differs from the weighted fraction over the requested reduction", desc,
+                                  {"dims": list(exp.dims), "values": np.asarray(exp.values).tolist()},
+                                  {"dims": list(got.dims), "values": np.asarray(got.values).tolist()})
+            ctx.count("standalone_oracle_checked")
     # agreement with the contingency manager on binary inputs (unweighted, valid dims request)
     if w is None and ipod[0] == "ok" and ca:
         from scores.categorical import BinaryContingencyManager
@@ -268,15 +412,14 @@ def standalone(ctx, i):
             with np.errstate(all="ignore"):
                 for name, impl in (("probability_of_detection", ipod), ("probability_of_false_detection", ipofd)):
                     mv = getattr(basic, name)()
-                    a, b = xr.broadcast(impl[1], mv)
-                    a, b = xr.align(a, b, join="outer")
-                    if not np.allclose(np.asarray(a.values, float), np.asarray(b.transpose(*a.dims).values, float), rtol=1e-12, atol=0, equal_nan=True):
+                    a, b = impl[1], mv
+                    if not same_da(a, b):
                         ctx.violation(f"standalone {name} disagrees with the contingency manager on binary inputs", desc,
                                       np.asarray(b.values).tolist(), np.asarray(a.values).tolist())
             ctx.count("standalone_vs_manager")
 
 
-def run(ctx):
+def body(ctx, use_model):
     rng = ctx.rng
     bound = 12 if ctx.tier == "thorough" else 6
     if ctx.scale > 1:
@@ -284,21 +427,28 @@ def run(ctx):
     tables = all_tables(bound)
     ctx.note(f"exhaustive: all {len(tables)} tables with total <= {bound}")
     for k in range(0, len(tables), 400):
-        run_tables(ctx, tables[k:k + 400], "exhaustive")
+        run_tables(ctx, tables[k:k + 400], "exhaustive", use_model=use_model)
     ctx.exhaustive = True
     ctx.sample({"table": {"tp": 0, "fp": 0, "fn": 0, "tn": 3}, "note": "zero-cell table, all 34 methods compared"})
-    # the recorded rounding defect, deterministically
-    run_tables(ctx, [(0, 0, 0, 49), (49, 0, 0, 0), (0, 0, 0, 48), (7, 0, 0, 0)], "single-cell")
-    # random large tables
+    run_tables(ctx, [(0, 0, 0, 49), (49, 0, 0, 0), (0, 0, 0, 48), (7, 0, 0, 0), (5, 3, 0, 10), (5, 0, 2, 10), (4, 0, 0, 7)], "single-cell", use_model=use_model)
     big = [rand_table(rng, 2000) for _ in range(ctx.n(300, 4000))]
     for k in range(0, len(big), 400):
-        run_tables(ctx, big[k:k + 400], "random", sedi_budget=ctx.n(60, 400))
+        run_tables(ctx, big[k:k + 400], "random", sedi_budget=ctx.n(60, 400), use_model=use_model)
     ctx.sample({"table": dict(zip(("tp", "fp", "fn", "tn"), big[0]))})
     for _ in range(ctx.n(25, 300)):
         if not ctx.time_left():
             break
-        multi_dim(ctx)
-    for i in range(ctx.n(120, 1500)):
+        multi_dim(ctx, use_model)
+    for i in range(ctx.n(150, 1500)):
         if not ctx.time_left():
             break
-        standalone(ctx, i)
+        standalone(ctx, i, use_model)
+
+
+def run(ctx):
+    body(ctx, model_ok(ctx))
+
+
+def run_without_model(ctx):
+    """implementation against the exact-fraction oracle of the documented formulas and against itself (aliases, swaps, standalone vs manager)"""
+    body(ctx, False)
